@@ -186,7 +186,7 @@ func c17Modulus(g *g17, count int) {
 				for i := range outs {
 					res[i] = outs[i].Big()
 				}
-				return hexList(res)
+				return c17hexList(res)
 			})
 		case 17, 18, 19, 20: // ModSqrt (m = 2 excluded: the property claims odd primes; saferith rejects even prime moduli by panic)
 			if m.Cmp(bTwo) == 0 {
@@ -333,7 +333,7 @@ func c17Modular(g *g17, count int) {
 			g.emit(fmt.Sprintf("ar.multiexp %s %s,%s %s", head, x, y, ee), func() string {
 				outs := []*numct.Nat{new(numct.Nat), new(numct.Nat)}
 				arith.MultiBaseExp(outs, []*numct.Nat{x.nat(), y.nat()}, ee.nat())
-				return hexList([]*big.Int{outs[0].Big(), outs[1].Big()})
+				return c17hexList([]*big.Int{outs[0].Big(), outs[1].Big()})
 			})
 		default: // CRT: Precompute / Recombine / Decompose / multi-factor, and the Paillier helpers
 			a, b := g.residue(p), g.residue(q)
